@@ -114,14 +114,19 @@ def run(ctx):
 
         def one_proof_ge(body):
             e, bl = [], []
-            for bb, tru, fal, si in body.call_bool_guards(r"PartialOrd(<[^>]*>)?(>)?::ge$"):
-                c = [a for a in si["atoms"] if a.kind == "call" and a.what.endswith("::ge")]
+            for bb, tru, fal, si in body.call_bool_guards(r"PartialOrd(<[^>]*>)?(>)?::(ge|le|gt|lt)$"):
+                c = [a for a in si["atoms"] if a.kind == "call" and re.search(r"::(ge|le|gt|lt)$", a.what)]
                 t = body.term(c[0].bb) if c else None
                 if not t:
                     continue
-                lhs = origin_names(body, t["args"][0])
-                if lhs and all(x.endswith("NativeProof>::amount") for x in lhs):
-                    e.append((bb, tru)); bl.append(bb)
+                op = c[0].what.rsplit("::", 1)[1]
+                one = lambda o: bool(o) and all(x.endswith("NativeProof>::amount") for x in o)
+                lhs, rhs = origin_names(body, t["args"][0]), origin_names(body, t["args"][1])
+                # proof.amount() >= N  |  N <= proof.amount()  (and the negated forms on their false edge)
+                if one(lhs) and not one(rhs):
+                    e.append((bb, tru if op in ("ge", "gt") else fal)); bl.append(bb)
+                elif one(rhs) and not one(lhs):
+                    e.append((bb, tru if op in ("le", "lt") else fal)); bl.append(bb)
             return e, bl
         check_guarded(ctx, "has_amount|granted-only-on-one-proofs-amount", b, trues,
                       [G_bool_call(re.escape(A_) + r"::proof_matches$", True), G_custom(one_proof_ge, "proof.amount() >= N (left operand is one proof's amount)")],
